@@ -496,6 +496,10 @@ class CGenerator:
             s += " ".join(n.storage) + " "
         if n.align:
             s += " ".join(self.visit(a) for a in n.align) + " "
+        if n.quals and isinstance(n.type, (c_ast.Struct, c_ast.Union, c_ast.Enum)):
+            # A declaration that only declares a tag has no TypeDecl to carry
+            # its qualifiers.
+            s += " ".join(n.quals) + " "
         s += self._generate_type(n.type)
         return s
 
